@@ -11,7 +11,7 @@
      cc, sr, tm   conn_count, shutdown_requested (0/1), id of the Timer in `timer` (0 = None)   [-1 = not observable]
      ts, tk       state and interval class of every Timer object created so far
      serving      connection ids inside server.serve()
-   Registers: tid -> furthest event matched; 100000+tid -> clauses violated in a matched state.                   *)
+   Registers: 2*tid -> furthest event matched; 2*tid+1 -> clauses violated in a matched state.                   *)
 EXTENDS IdleAccept, Integers, Json, IOUtils, TLCExt
 Traces == JsonDeserialize(IOEnv.TRACE_FILE)
 VARIABLES tid, l
@@ -55,9 +55,9 @@ Bad == {c \in {"NoExitWhileServing", "ExitOnlyAfterIdlePeriod", "NoLateAcceptAba
           \/ (c = "NoExitWhileServing" /\ ~NoExitWhileServing)
           \/ (c = "ExitOnlyAfterIdlePeriod" /\ ~ExitOnlyAfterIdlePeriod)
           \/ (c = "NoLateAcceptAbandoned" /\ ~NoLateAcceptAbandoned)}
-Track == /\ TLCSet(tid, IF TLCGet(tid) < l THEN l ELSE TLCGet(tid))
-         /\ TLCSet(100000 + tid, TLCGet(100000 + tid) \cup Bad)
-ASSUME \A i \in 1..Len(Traces) : TLCSet(i, 0) /\ TLCSet(100000 + i, {})
+Track == /\ TLCSet(2 * tid, IF TLCGet(2 * tid) < l THEN l ELSE TLCGet(2 * tid))
+         /\ TLCSet(2 * tid + 1, TLCGet(2 * tid + 1) \cup Bad)
+ASSUME \A i \in 1..Len(Traces) : TLCSet(2 * i, 0) /\ TLCSet(2 * i + 1, {})
 Verdicts == \A i \in 1..Len(Traces) :
-   PrintT("@@J@@" \o ToJson([tid |-> i, matched |-> TLCGet(i) - 1, len |-> Len(Traces[i].ev), bad |-> TLCGet(100000 + i)]))
+   PrintT("@@J@@" \o ToJson([tid |-> i, matched |-> TLCGet(2 * i) - 1, len |-> Len(Traces[i].ev), bad |-> TLCGet(2 * i + 1)]))
 =========================================================================================
